@@ -65,6 +65,11 @@ CHECKS = {
    text="TLC explores all histories (<=4/5 ops) over the argument palette {-1,0,n-1,n,n+5} x {0, existing, new frequency} checking the partitions and that standard channels only change `enabled`; seeded histories of up to 30 Add/Disable/Enable calls with arbitrary ints on all 14 bands are recorded with the full projection (every channel, five index lists, lookups) after every call and TLC steps the model alongside, demanding equality, the partitions on the observed lists, errors (never panics) for bad indices, matching lookups, the CFList rule per protocol version, and that CFLists, RX2/ping-slot/beacon frequencies and channels encode into join-accepts/MAC commands and decode back.",
    note="Trusted: TLC, ChannelPlan.tla, MACCommands/Frame tables, snapshot hook. Known finding: ISM2400 frequencies are not encodable outside NewChannelReq.",
    ref="3/C15"),
+ "C17": dict(
+   technique="backend-interface wire text (decimal numerals, hex, RFC 3339) and RFC 3394 key wrap in TLA+; numeral identities model-checked by TLC; recorded encodings/decodings, struct documents and envelopes validated by TLC",
+   text="TLC checks on the specification that the decimal numeral of n/10^6 (n/100) denotes n over dense sweeps and that RFC 3394 unwrap inverts wrap and rejects flipped bits (16/24/32-byte KEKs); the real Percentage (0..1000 exhaustive) and Frequency (every multiple of 100 kHz up to 2^32 Hz, neighbours, random) encodings are parsed digit by digit in TLA+ and must denote and decode to the value; hex strings (0x, upper case, malformed), ISO 8601 timestamps with zone offsets (to one second), all 20 payload structs with random optional fields (decode then re-encode must give the same document) and key envelopes incl. tampered ciphertexts and wrong KEKs (in-TLA+ AES key wrap decides success) are validated.",
+   note="Trusted: TLC, BackendJSON.tla/KeyWrap.tla, lexical JSON rewrite in the harness. float64 fields are compared as text.",
+   ref="3/C17"),
  "C18": dict(
    technique="TS003/TS004/TS005/TS006 command tables in TLA+ (AppLayer.tla) incl. status-dependent sizes and stream framing; TLC enumerates values/sequences (replayed on the four packages); TLC validates recorded random values, sequences and key derivations (in-TLA+ AES)",
    text="TLC checks on the specification that every enumerated command value (all byte values of 1-byte payloads, patterns of longer ones, every status byte of the status-dependent ones) is well-formed, encodes to its size and that DecodeStream o Encode is the identity for all sequences of <=2/3 commands incl. zero-length firmware commands and payload-less CIDs; every such value/sequence and seeded random in-range values and sequences of 1..6 commands are marshalled, sized and unmarshalled by the real packages and compared (bytes, reported sizes, decoded sequence, no panic); McRootKey/McKEKey/McAppSKey/McNetSKey are recomputed with AES written in TLA+.",
